@@ -27,7 +27,7 @@ T(k, o, c) == Mk(k, o, c)
 (* ---- leaf alphabets ----------------------------------------------------------------------- *)
 Wraps == {"space", "any", "clip", "ellipsis"}
 Aligns == {"left", "center", "right"}
-TextIdsFull == {"empty", "a", "ab", "ascii", "long", "nl", "sp", "cjk", "cjk1", "acjk", "comb", "comb0", "dec", "mixed"}
+TextIdsFull == {"empty", "a", "ab", "ascii", "long", "nl", "sp", "cjk", "cjk1", "acjk", "comb", "comb0", "dec", "mixed", "mk1", "mk2"}
 TextLeavesFull == {T("Text", <<x, w, a, b>>, <<>>) : x \in TextIdsFull, w \in Wraps, a \in Aligns, b \in {0, 1}}
 EditLeavesFull == {T("Edit", <<cap, x, ml, pos, a, w>>, <<>>) :
                      cap \in {"empty", "ab", "cjk1"}, x \in {"empty", "ascii", "nl", "acjk", "comb", "long"}, ml \in {0, 1},
